@@ -1971,6 +1971,10 @@ vinsertpair(VGROUP *vg,  /* IN: vgroup struct */
     /* clear error stack */
     HEclear();
 
+    /* the number of members is a 16-bit number, in memory and in the file */
+    if (vg->nvelt == (uint16)65535)
+        HGOTO_ERROR(DFE_RANGE, FAIL);
+
     if ((int)vg->nvelt >= vg->msize) {
         vg->msize *= 2;
 
